@@ -183,6 +183,57 @@ def run(ctx):
         else:
             ctx.validated()
 
+    # ---------------- K-rt histories: enable_buffering(n) / disable_buffering() / next() sequences on ONE stream
+    # object, then iterate it to the end; extracted Stream.srun / sdrain == real TemplateStream
+    hist = []
+    OPS = ["n", "n", "n", "d", "e2", "e3", "e2", "e1", "e0", "e5"]
+    for L in range(0, ctx.size(4, 5)):
+        for ops in itertools.product(["n", "d", "e2", "e3", "e1"], repeat=L):
+            for ps in (["a", "", "b", "c", "", "d", "e"], ["", ""], ["a"]):
+                hist.append((list(ops), ps))
+    for _ in range(ctx.size(3000, 30000)):
+        hist.append(([ctx.rng.choice(OPS) for _ in range(ctx.rng.randint(2, 12))],
+                     [ctx.rng.choice(["", "a", "bc", "x"]) for _ in range(ctx.rng.randint(0, 14))]))
+    hlines = ["H " + " ".join(ops) + " ; " + " ".join(enc_piece(p) for p in ps) for ops, ps in hist]
+    for (ops, ps), m in zip(hist, ctx.driver("stream", hlines)):
+        st = TemplateStream(iter(ps))
+        outs = []
+        for o in ops:
+            try:
+                if o == "n":
+                    outs.append(enc_piece(next(st)))
+                elif o == "d":
+                    outs.append("." if st.disable_buffering() is None else "?")
+                else:
+                    outs.append("." if st.enable_buffering(int(o[1:])) is None else "?")
+            except StopIteration:
+                outs.append("S")
+            except ValueError:
+                outs.append("E")
+            except Exception as e:  # noqa
+                outs.append("X:" + type(e).__name__)
+        try:
+            rest_items = list(itertools.islice(st, 0, 10 * len(ps) + 10))
+        except Exception as e:  # noqa
+            rest_items = ["X:" + type(e).__name__]
+        impl = " ".join(outs) + " D " + "|".join(enc_piece(c) for c in rest_items)
+        nontriv = sum(1 for o in ops if o[0] == "e" and int(o[1:]) > 1) >= 2 and "n" in ops
+        ctx.case(key=("hist", tuple(ops), tuple(ps)) if nontriv else None,
+                 sample={"ops": ops, "pieces": ps, "results": impl} if nontriv and len(ctx.samples) < 6 else None)
+        ctx.count("krt_histories")
+        if impl.strip() != m.strip():
+            # the property on the real results: nothing lost or duplicated; chunk rule after the last enable
+            got = "".join(x for x in outs if x not in (".", "S", "E", "-") and not x.startswith("X:")) + \
+                  "".join(c for c in rest_items)
+            of = None
+            if got != "".join(ps):
+                of = "text yielded over the history differs from the text of the pieces"
+            elif impl.split(" D ")[0] == m.split(" D ")[0]:
+                of = "after the last enable_buffering the chunks do not combine the requested number of non-empty pieces"
+            ctx.model_mismatch("K-rt TemplateStream histories (enable / disable / next)", {"ops": ops, "pieces": ps}, m, impl, of)
+        else:
+            ctx.validated()
+
     # ---------------- O: every entry point on generated template sets
     n_sets = ctx.size(300, 3000)
     tmpdir = tempfile.mkdtemp(prefix="c10_", dir=lib.BUILD)
@@ -205,6 +256,8 @@ def run(ctx):
             if idx % 5 == 4 and "extends" not in ts[main]:
                 ts[main] = "\u00e9\u20ac\U0001d11e<" + ts[main]      # text no single-byte codec can encode
             data = g.data() if idx % 7 else {}
+            if not data and "extends" not in ts[main]:
+                ts[main] += "|{{ gv }}"          # a template-level global (see the globals history in the oracle)
             case = {"templates": ts, "data": data, "index": idx, "autoescape": auto}
             w = oracle_entry_points(jinja2, ts, main, data, tmpdir, ctx, auto)
             if w == "skip":
@@ -321,6 +374,15 @@ def oracle_entry_points(jinja2, ts, main, data, tmpdir, ctx, autoescape=False):
             return "a second render() after the other entry points differs from the first"
         if "".join(t.generate(**data)) != ref:
             return "generate() after str(module) differs from render()"
+        if not data:
+            # history: the cached template's globals are updated by a later get_template(name, globals=...)
+            for gval in ("G1", "G2", "G1"):
+                tg = env.get_template(main, globals={"gv": gval})
+                if str(tg.module) != tg.render():
+                    return ("str(template.module) differs from render() after get_template(name, globals=...) "
+                            f"set the template global to {gval!r}")
+                if "".join(tg.stream()) != tg.render():
+                    return "stream() differs from render() after a globals update"
     except Exception as e:
         return f"entry point raised {type(e).__name__}: {e} although render() succeeded"
     nontriv = len(pieces) >= 2 and ref != ""
